@@ -6,6 +6,9 @@
 #[cfg(kani)]
 pub mod util;
 
+#[cfg(all(kani, any(feature = "c01", feature = "c02", feature = "c07", feature = "c11", feature = "c18")))]
+pub mod ar;
+
 macro_rules! prop_mod {
     ($feat:literal, $m:ident) => {
         #[cfg(all(kani, feature = $feat))]
